@@ -118,7 +118,40 @@ fn exec_affine(case: &Value, out: &mut Out) {
             Err(_) => { e["jac"] = json!({"r": 0, "c": 0, "d": []}); e["jaci"] = e["jac"].clone(); e["panic"] = json!(true); }
         }
     }
+    if case["lg"].as_bool().unwrap_or(false) { let s = summarise(&e); out.ev(s); return; }
     out.ev(e);
+}
+
+/// Large shapes: the exact check is carried out here in integer arithmetic on the scaled integers of the event (dyadic data: every entry and
+/// every point is an exact integer after scaling) and only its outcome is logged: number of wrong entries, the first one (i, j, got, want, part),
+/// number of illegal evaluation points, coverage, and the shape.  Trace_Jacobian demands wrong = 0, pbad = 0, cover, shape = (m, n).
+fn summarise(e: &Value) -> Value {
+    let (m, n) = (getu(e, "m"), getu(e, "n")); let cx = gets(e, "ty") == "cx"; let quad = gets(e, "op") == "jac_quad";
+    let dsc = geti(e, "dsc");
+    let x = ivec(&e["x"]); let xi = if cx { ivec(&e["xi"]) } else { vec![0; n] };
+    let (r, c) = (getu(&e["jac"], "r"), getu(&e["jac"], "c"));
+    let jre = ivec(&e["jac"]["d"]); let jim = if cx { ivec(&e["jaci"]["d"]) } else { vec![0; jre.len()] };
+    let (mre, mim) = (ivec(&e["M"]["d"]), if cx { ivec(&e["Mi"]["d"]) } else { vec![] });
+    let (p, s, q, u) = (ivec(&e["p"]), ivec(&e["s"]), ivec(&e["q"]), ivec(&e["u"]));
+    let want = |i: usize, j: usize| -> (i64, i64) {
+        if !quad { return (mre[i * n + j], if cx && mim.len() == m * n { mim[i * n + j] } else { 0 }); }
+        let cf = s[i] * ((if p[i] == j as i64 { 1 } else { 0 }) - (if q[i] == j as i64 { 1 } else { 0 }));
+        let (re, im) = (cf * (2 * x[j] + dsc), cf * 2 * xi[j]);
+        if u[i] == 1 { (-im, re) } else { (re, im) } };
+    let (mut wrong, mut first) = (0i64, json!([]));
+    if r == m && c == n && jre.len() == m * n { for i in 0..m { for j in 0..n {
+        let (wr, wi) = want(i, j); let (gr, gi) = (jre[i * n + j], jim[i * n + j]);
+        if gr != wr || gi != wi { wrong += 1; if wrong == 1 { first = json!([i, j, gr, wr, gi, wi]); } } } } } else { wrong = (m * n) as i64 + 1; }
+    let pts = e["pts"].as_array().cloned().unwrap_or_default(); let ptsi = e.get("ptsi").and_then(|v| v.as_array()).cloned().unwrap_or_default();
+    let (mut pbad, mut base, mut seen) = (0i64, false, vec![false; n]);
+    for (k, pt) in pts.iter().enumerate() {
+        let pr = ivec(pt); let pi = if cx && k < ptsi.len() { ivec(&ptsi[k]) } else { vec![0; n] };
+        if pr.len() != n || pi.len() != n { pbad += 1; continue; }
+        let d: Vec<usize> = (0..n).filter(|j| pr[*j] != x[*j] || pi[*j] != xi[*j]).collect();
+        if d.is_empty() { base = true; } else if d.len() == 1 && pr[d[0]] - x[d[0]] == dsc && pi[d[0]] == xi[d[0]] { seen[d[0]] = true; } else { pbad += 1; }
+    }
+    json!({"op": "jac_big", "src": e["op"], "cid": e["cid"], "ty": e["ty"], "m": m, "n": n, "r": r, "c": c, "wrong": wrong, "first": first, "pbad": pbad,
+           "cover": base && seen.iter().all(|b| *b), "npts": pts.len(), "panic": e["panic"], "dsc": dsc})
 }
 
 // ------------------------------------------------------------------ smooth, units
@@ -416,6 +449,33 @@ pub fn gen(tier: &str, seed: u64, out: &mut Out) {
             else { coincide_ints(&mut rng, &mut x, None, dsc, &mut nz, &mut nzi); }
             c["x"] = Value::from(x); c["nz"] = Value::from(nz); c["nzi"] = Value::from(nzi); c["coin"] = json!(true);
         }
+        push(out, c);
+    } } }
+    // (a4) LARGE and extreme-aspect shapes ("for every m and n"): n in {31, 32, 33, 34, 40, 64, 65} x m in {1, n, 2n}; tall m x n with
+    //      m in {8n-1, 8n, 8n+1, 16n, 100} for n = 1..6; wide 2 x n up to n = 65; affine (exact) and quadratic families, both element types;
+    //      the exact entry-by-entry / point-by-point check is summarised by the harness (event jac_big)
+    let mut shapes: Vec<(usize, usize)> = vec![];
+    for n in [31usize, 32, 33, 34, 40, 64, 65] { for m in [1, n, 2 * n] { shapes.push((m, n)); } shapes.push((2, n)); }
+    for n in 1..=6usize { for m in [8 * n - 1, 8 * n, 8 * n + 1, 16 * n, 100] { shapes.push((m, n)); } }
+    for n in [7usize, 12, 16] { shapes.push((1, n)); shapes.push((2, n)); }
+    for rep in 0..(if quick { 1 } else { 4 }) { for (m, n) in shapes.iter() { for ty in ["f64", "cx"] {
+        let (m, n) = (*m, *n); let _ = rep;
+        // affine, M and c multiples of 1/16, x multiples of 1/64
+        let k = 4 + kk % 23; kk += 1;
+        let xr = |rng: &mut R, sh: u32, lim: i64| -> Vec<i64> { (0..n).map(|_| rng.gen_range(-lim..=lim) << sh).collect() };
+        let mut c = json!({"kind": "affine", "ty": ty, "m": m, "n": n, "ms": 4, "xs": 26, "k": k, "dsc": 1i64 << (26 - k), "lg": true, "nz": [],
+                           "M": rand_mat_json(&mut rng, m, n, -64, 64), "c": rand_vec_json(&mut rng, m, -64, 64), "x": xr(&mut rng, 20, 256)});
+        if ty == "cx" { c["Mi"] = rand_mat_json(&mut rng, m, n, -64, 64); c["ci"] = rand_vec_json(&mut rng, m, -64, 64); c["xi"] = Value::from(xr(&mut rng, 20, 256)); }
+        push(out, c);
+        // quadratic, one or two variables per component, coefficient 1 or i
+        let k = 4 + kk % 23; kk += 1;
+        let lim: i64 = if k <= 23 { 32 } else { 4 };
+        let p: Vec<usize> = (0..m).map(|i| if rng.gen_bool(0.5) { i % n } else { rng.gen_range(0..n) }).collect();
+        let s: Vec<i64> = (0..m).map(|_| if rng.gen_bool(0.5) { 1 } else { -1 }).collect();
+        let q: Vec<i64> = (0..m).map(|_| if rng.gen_bool(0.4) { rng.gen_range(0..n) as i64 } else { -1 }).collect();
+        let u: Vec<i64> = (0..m).map(|_| if ty == "cx" && rng.gen_bool(0.4) { 1 } else { 0 }).collect();
+        let mut c = json!({"kind": "quad", "ty": ty, "m": m, "n": n, "ms": 0, "xs": 26, "k": k, "dsc": 1i64 << (26 - k), "lg": true, "nz": [], "x": xr(&mut rng, 22, lim), "p": p, "s": s, "q": q, "u": u});
+        if ty == "cx" { c["xi"] = Value::from(xr(&mut rng, 22, lim)); }
         push(out, c);
     } } }
     // (b) smooth maps, all shapes, delta = 1e-8 and 2^-k (k = 4..26); the same special points (here as f64 bit patterns)
